@@ -304,7 +304,7 @@ func (fs LocalFileSystem) Copy(ctx context.Context, src, dst string, options *Co
 
 	if _, err := os.Stat(dstPath); err != nil {
 		if !os.IsNotExist(err) {
-			return false, errFromOS(err)
+			return false, errFromOSCreate(err)
 		}
 		created = true
 	} else {
@@ -370,7 +370,7 @@ func (fs LocalFileSystem) Move(ctx context.Context, src, dst string, options *Mo
 
 	if _, err := os.Stat(dstPath); err != nil {
 		if !os.IsNotExist(err) {
-			return false, errFromOS(err)
+			return false, errFromOSCreate(err)
 		}
 		created = true
 	} else {
